@@ -2,6 +2,7 @@ import Cell2v.Lemmas.Timer
 import Cell2v.Lemmas.TimerLive
 import Cell2v.Lemmas.TimerSvc
 import Cell2v.Lemmas.TimerFair
+import Cell2v.Lemmas.TimerGap
 /-!
 C14 — timers fire on the owner, never early, as often as asked, never after cancel.
 
@@ -324,6 +325,52 @@ theorem foreign_creator_leaks_entry :
     cbCount r.2 2 = 1 ∧ (s2.tm 2).inMap = true ∧ (s2.tm 2).armed = false ∧ 2 ∉ s2.queue ∧ s2.cur = none ∧
     (s2.tm 2).period = 0 ∧ (s2.tm 2).cancelled = false := by decide
 
+/-! ### the expiry closure of `doLater` is three statements of another goroutine -/
+
+/-- `expire` (one atomic step of the model) is "read `Canceled`, read `running`, then send".  In
+Go the send may come arbitrarily later (the goroutine sits blocked on the full 999-slot
+channel) and the owner goes on meanwhile.  For EVERY stretch `ops` of owner-side steps between
+the checks and the send — `Cancel` of that very timer or of others, `Stop`, creations, actions
+and ends of callbacks, time passing — the state and the events are those of the history in which
+the atomic `expire` happened first and the same steps afterwards.  So the interleavings
+"checked not-cancelled → Cancel → push" and "checked running → Stop → push" are histories
+of atomic steps, the ones every theorem of this file quantifies over. -/
+theorem expire_gap_harmless (s : State) (id : Nat) (tr : List Event) (ops : List Op)
+    (hown : ∀ op ∈ ops, op.ownerSide = true) :
+    ((expireCheck s id).2 = true →
+      expire s id = (expireSend (expireCheck s id).1 id, []) ∧
+      (expireSend (runFrom (expireCheck s id).1 tr ops).1 id, (runFrom (expireCheck s id).1 tr ops).2)
+        = runFrom (expire s id).1 tr ops) ∧
+    ((expireCheck s id).2 = false → expire s id = ((expireCheck s id).1, [])) := by
+  constructor
+  · intro hp
+    have h1 : expire s id = (expireSend (expireCheck s id).1 id, []) := by
+      rw [expire_eq_check_send]; simp [hp]
+    refine ⟨h1, ?_⟩
+    rw [h1]
+    exact (send_commutes_run (expireCheck s id).1 id tr ops hown).symm
+  · intro hp; rw [expire_eq_check_send]; simp [hp]
+
+/-- the same for a receive that happens in the gap (the consumer takes an element that was
+already in the channel), and for the expiry goroutine of another timer running between the
+checks: the checks commute with it (which of the two objects is queued first is decided by
+the sends alone — the order of simultaneous expiries the acceptance run reads off the code) -/
+theorem expire_gap_receive_and_other_expiry (s : State) (id : Nat) :
+    (∀ i, i < s.queue.length →
+      step (expireSend s id) (.doNext i) = (expireSend (step s (.doNext i)).1 id, (step s (.doNext i)).2)) ∧
+    (∀ y, y ≠ id → (expireCheck (expire s y).1 id).1 = (expire (expireCheck s id).1 y).1 ∧
+      (expireCheck (expire s y).1 id).2 = (expireCheck s id).2) :=
+  ⟨fun i hi => send_commutes_recv s id i hi, fun y hy => check_commutes_other_expiry s id y hy⟩
+
+/-- the gap is real: the checks pass, the owner cancels, the send still happens — the object
+sits in the queue, cancelled, and `Do` skips it (no callback after the cancel) -/
+example : let s := (run [.add 2 0 [], .advance 2]).1
+    let s1 := (expireCheck s 2).1
+    let r := runFrom s1 [] [.cancel 2]
+    (expireCheck s 2).2 = true ∧ Op.ownerSide (.cancel 2) = true ∧ (expireSend r.1 2).queue = [2] ∧ r.2 = [Event.cancel 2 2] ∧
+    (runFrom (expireSend r.1 2) r.2 [.doNext 0]).2 = [Event.cancel 2 2] ∧
+    (expireCheck (run [.add 2 0 [], .advance 2, .cancel 2]).1 2).2 = false := by decide
+
 /-! ### never early, with the arguments given at creation -/
 
 /-- Whenever a callback of `id` is entered at time `t` with arguments `a`: the timer was created
@@ -391,6 +438,33 @@ theorem panic_same_future (s : State) (tr : List Event) (id : Nat) (rest : List 
 example : let ops := [Op.defScript 1 [.panic, .cancelSelf], .add 2 1 [], .advance 2, .expire 2, .doNext 0, .cbStep, .cbStep]
     (run ops).2 = [Event.created 2 0 2 2 [], .cb 2 2 [], .panic 2, .rearm 2 2 2] ∧ ((run ops).1.tm 2).armed = true := by
   decide
+
+/-- what the panic clause says, over the two steps "panic, tail of `Do`", for every state and
+every rest of the script: no other timer object, not the queue, the clock, the id allocator or
+the `running` flag is touched; a repeating timer that was not cancelled is re-armed for
+`now + period` exactly as after a normal return, a one-shot is forgotten.  (In the model the
+value thrown plays no role: Go's `recover()` takes every value and the handler of `Mgr.do` only
+prints it; the acceptance run lets callbacks panic with a string, an error value, a runtime
+error and a struct value.) -/
+theorem panic_leaves_rest_alone (s : State) (id : Nat) (rest : List Act) (h : s.cur = some (id, Act.panic :: rest)) :
+    let r := runFrom s [] [.cbStep, .cbStep]
+    r.1.cur = none ∧ r.1.queue = s.queue ∧ r.1.running = s.running ∧ r.1.now = s.now ∧ r.1.nextId = s.nextId ∧
+    (∀ j, j ≠ id → r.1.tm j = s.tm j) ∧
+    ((s.tm id).cancelled = false → 0 < (s.tm id).period →
+      (r.1.tm id).armed = true ∧ (r.1.tm id).exp = s.now + (s.tm id).period ∧
+      r.2 = [Event.panic id, Event.rearm id s.now (s.tm id).period]) ∧
+    ((s.tm id).cancelled = false → (s.tm id).period = 0 → (r.1.tm id).inMap = false ∧ r.2 = [Event.panic id]) ∧
+    ((s.tm id).cancelled = true → r.1.tm id = s.tm id ∧ r.2 = [Event.panic id]) := by
+  simp only [runFrom, step, cbStep, h, State.setCur, finish]
+  cases hc : (s.tm id).cancelled
+  · by_cases hp : 0 < (s.tm id).period
+    · have hp' : (s.tm id).period ≠ 0 := by omega
+      simp [hp, hp', State.setTm, upd]
+      intro j hj; simp [hj]
+    · have hp' : (s.tm id).period = 0 := by omega
+      simp [hp', State.setTm, upd]
+      intro j hj; simp [hj]
+  · simp
 
 /-! ### sensitivity: the `Canceled` test at the head of `Do` is what the first theorem rests on -/
 
@@ -474,6 +548,56 @@ theorem svc_idle_tick_frees (sops : List SOp) (tl : List Nat) (hp : (svcRun sops
 theorem svc_freed_timer_never_fires (sops : List SOp) (pre post : List Event) (id t : Nat)
     (h : (svcRun sops).2 = pre ++ Event.cancel id t :: post) : ∀ t' a, Event.cb id t' a ∉ post :=
   (sinv_run sops).2.good.noCbAfterCancel pre post id t h
+
+/-- user code inside `checkExpired`: no tick of a service ever creates a timer.  Its events are
+nothing at all, or the owned timer's callback followed by its cancellation (idle) or by its
+re-arming (busy) — also when completion callbacks of timed-out requests issue follow-up
+requests from inside the callback (`tryStartCheckTimer` finds the timer it is running in). -/
+theorem svc_tick_creates_no_timer (sops : List SOp) :
+    ∀ e ∈ (svcStep (svcRun sops).1 .tick).2, ∀ i t dl p a, e ≠ Event.created i t dl p a := by
+  obtain ⟨hs, hi⟩ := sinv_run sops
+  intro e he i t dl p a heq
+  subst heq
+  rcases tick_events hs hi.wf with h | h | h <;> rw [h] at he <;> simp at he
+
+/-- the retry idiom: a request that times out and whose completion callback issues a follow-up
+request.  At the busy tick that finds it expired the entry is dropped, the follow-up is in the
+table (so, by `svc_request_keeps_check_timer`, it has its check timer), and that timer is the
+one already owned: re-armed by `Do` for one second later, nothing new armed. -/
+theorem svc_followup_request_is_covered (sops : List SOp) (k dl : Nat)
+    (hk : (k, dl) ∈ (svcRun sops).1.pending) (hdl : dl < (svcRun sops).1.t.now)
+    (hag : k ∈ (svcRun sops).1.again) (he : entered (svcRun sops).1 = true) :
+    (k + followOffset, (svcRun sops).1.t.now + reqTimeout) ∈ (svcStep (svcRun sops).1 .tick).1.pending ∧
+    (k, dl) ∉ (svcStep (svcRun sops).1 .tick).1.pending ∧
+    (svcStep (svcRun sops).1 .tick).1.own = (svcRun sops).1.own ∧ (svcRun sops).1.own ≠ 0 ∧
+    ((svcStep (svcRun sops).1 .tick).1.t.tm (svcRun sops).1.own).armed = true ∧
+    ((svcStep (svcRun sops).1 .tick).1.t.tm (svcRun sops).1.own).exp = (svcRun sops).1.t.now + checkPeriod := by
+  obtain ⟨hs, hi⟩ := sinv_run sops
+  have hp : (svcRun sops).1.pending.isEmpty = false := by
+    cases hpe : (svcRun sops).1.pending with
+    | nil => rw [hpe] at hk; cases hk
+    | cons x xs => rfl
+  obtain ⟨h1, h2, h3, _, h5, h6⟩ := tick_busy hs hi.wf he hp
+  refine ⟨?_, ?_, h1, h2, h5, h6⟩
+  · rw [h3]
+    apply List.mem_append_right
+    simp only [followUps, expiredAt, List.mem_map, List.mem_filter]
+    exact ⟨(k, dl), ⟨⟨hk, by simpa using hdl⟩, by simpa using hag⟩, rfl⟩
+  · rw [h3]
+    simp only [List.mem_append, List.mem_filter, followUps, expiredAt, List.mem_map, not_or]
+    constructor
+    · intro ⟨_, hx⟩; simp at hx; omega
+    · rintro ⟨⟨k', dl'⟩, ⟨⟨hm, hx⟩, _⟩, heq⟩
+      simp only [Prod.mk.injEq] at heq
+      -- the follow-up's deadline is in the future, `dl` is in the past
+      have : reqTimeout = 30000 := rfl
+      omega
+
+/-- a request with a retrying callback times out at +30 s: the tick after the deadline replaces
+it by the follow-up `1001`, the service goes on owning timer 2 -/
+example : let sops := [SOp.reqAgain 1, .advance 30001, .expire 2]
+    (1, 30000) ∈ (svcRun sops).1.pending ∧ 1 ∈ (svcRun sops).1.again ∧ entered (svcRun sops).1 = true ∧
+    (svcStep (svcRun sops).1 .tick).1.pending = [(1001, 60001)] ∧ (svcStep (svcRun sops).1 .tick).1.own = 2 := by decide
 
 /-- request, answer, one second later the tick finds the table empty: timer 2 freed; the next
 request arms timer 3 -/
